@@ -88,3 +88,35 @@ func VerifC15eScheduler(same int) {
 	verifrt.Assert(c15eSessions == 2-same, "a job whose outfile exists ran again, or a job did not run")
 	verifrt.Reach("jobs-done")
 }
+
+// VerifC15eContinuous: continuous.runJob for a job with an outfile whose
+// session ends (the target drops the connection): when runJob has returned,
+// nothing of that run writes any more - a complete result published later (by
+// the next run, by anybody) stays as it is and no temporary file appears.
+func VerifC15eContinuous() {
+	dlog.VerifInstall(source.Server)
+	config.Common = &config.CommonConfig{SSHPort: 2222}
+	config.Server.SSHBindAddress = "localhost"
+	config.Server.MapreduceLogFormat = "generickv"
+	mapr.VerifC15Reset(time.Millisecond, nil)
+	c15eSessions = 0
+	c15eLag = [2]time.Duration{}
+	var j config.Continuous
+	j.Name, j.Enable = "cont", true
+	j.Files = "/var/log/f"
+	j.Query = "select g,count(x) from T group by g interval 2"
+	j.Outfile = "/out.csv"
+	j.RestartOnDayChange = verifrt.Bool("restart-on-day-change")
+	ctx, cancel := context.WithCancel(context.Background()) // the server's context: it lives on
+	defer cancel()
+	newContinuous().runJob(ctx, j)
+	verifrt.Assert(c15eSessions == 1, "the job did not run")
+	const later = "g,count(x)\nk0,7\nk1,9\n"
+	mapr.VerifC15Put("/out.csv", later)
+	ops := mapr.VerifC15Ops()
+	verifrt.Sleep(30 * time.Second)
+	out, ok := mapr.VerifC15Content("/out.csv")
+	verifrt.Assert(ok && out == later, "a run that has ended still writes: a complete result published after it was replaced")
+	verifrt.Assert(mapr.VerifC15Ops() == ops, "a run that has ended still touches the file system")
+	verifrt.Reach("quiet-after-end")
+}
